@@ -142,7 +142,7 @@ def cases(tier, seed, prop):
             for _ in range(rnd.randint(1, 3)): s = gens.mutate(rnd, s, gens.HTML_ALPHA)
             if len(s) <= 160: out.append({'s': s, 'g': 'mutdoc'})
     if prop == 'C09':
-        n = 700 if tier == 'quick' else 12000
+        n = 2000 if tier == 'quick' else 12000
         while len(out) < n:
             xml = rnd.random() < .35
             s, tops = gen_doc(rnd, xml, rnd.randint(1, 9), unclosed=.1)
